@@ -320,9 +320,13 @@ def run(rep: Report, prog: Program, tier: str) -> None:
             n_send += 1
             after = blk[idx + 1:]
             armed = False
+            from .common import timer_armers
+            armers3 = timer_armers(prog, "3")
             for s in after:
                 if isinstance(s, ast.If) and unparse(s.test) in ("not self._t3_handle", "self._t3_handle is None") and any(mentions_call(b, "self._t3_start") for b in s.body):
                     armed = True
+                if isinstance(s, ast.Expr) and isinstance(s.value, ast.Call) and armers3.get(unparse(s.value.func)) == "guarded":
+                    armed = True   # an "ensure running" wrapper / restart
                 if isinstance(s, ast.If) and any(mentions_call(b, "self._t3_restart") for b in s.body) and isinstance(s.test, ast.Name):
                     # accepted idiom: restart only for the earliest outstanding chunk; the flag must start True and be cleared after the first element
                     flag = s.test.id
@@ -556,6 +560,9 @@ def run(rep: Report, prog: Program, tier: str) -> None:
     leak_rule(rep, prog, PROP, "C02-LEAK", tier)
     from .sctploop import loop_rule
     loop_rule(rep, prog, PROP, "C02-LOOP", tier)
+    # a reliable message that inherits another channel's lifetime / retransmission limit is abandoned at the first loss and never delivered
+    from .C13life import run_policy
+    run_policy(rep, prog, PROP, "C02-POLICY")
 
 
 def leak_rule(rep: Report, prog: Program, PROP: str, RULE: str, tier: str) -> None:
